@@ -169,6 +169,13 @@ def main(argv=None):
             r['wall'] = time.time() - tb
             bounded.append(r)
 
+    # lemmas cited by the contracts and proved in Lean (lemmas/Lemmas.lean): elaborated on every run
+    lean_names = sorted({n for m in mods for n in getattr(m, 'LEAN_LEMMAS', [])})
+    lean_result = None
+    if lean_names and not a.only:
+        from pyvc import lean_lemmas
+        lean_result = lean_lemmas.check(lean_names, thorough=(a.tier == 'thorough'))
+
     known = load_known()
     known_ids = {k['id']: k for k in known.get('known', []) if k.get('property') == prop}
 
@@ -237,6 +244,10 @@ def main(argv=None):
             violations.append((b['name'], 'bounded', '%s/%s/bounded' % (prop, b['name']),
                                {'status': 'concrete', 'model': {'failing_inputs': b['violations']}, 'native': True}, None))
 
+    if lean_result is not None and not lean_result.get('ok'):
+        errors.append('lemma file not accepted by lean: %s' % lean_result.get('error'))
+    elif lean_result is not None:
+        backends['lean'] = len(lean_names)
     wall = time.time() - t0
     rc = 0
     lines = []
@@ -299,6 +310,7 @@ def main(argv=None):
             'samples': samples or [{'note': 'no discharged obligation to sample'}],
             'undecided': undecided, 'checker_errors': errors[:20],
             'known_findings_reported': [k for k, _, _ in known_hits],
+            'lemmas': lean_result,
         },
         'assumptions': sorted(assumptions) + list(getattr(mods[0], 'TRUSTED', [])),
     }
